@@ -12,6 +12,13 @@ Decided clauses:
   R7.6 (E11 bit-flow on the -O2 IR) the canonical-form predicates look at exactly the right bits:
        ge25519_is_canonical's verdict cannot depend on bit 255 (the sign of x) and can depend on
        every other bit; ristretto255_is_canonical and sc25519_is_canonical can depend on all 256.
+  R7.7 the scalar arithmetic APIs hand out reduced results: the last writer of the output (or of the
+       local buffer copied into it) is a function that reduces modulo L.
+  R7.10 expand_message_xmd hashes the same DST_prime bytes into b_0 and into every later block: the object
+        they are read from is not written in between (reports the genuine defect F6 for oversize contexts).
+  R7.8 (E12 known-bits, contradiction rule) no right shift / mask of a non-literal value in the field,
+       scalar and X25519 limb arithmetic is identically zero (a cut carry chain), outside one
+       confirmed-by-reading exception.
   R7.4 cofactor clearing on every hash-to-group / from-uniform path before encoding; the raw
        Elligator map is reachable only from functions that clear the cofactor.
 NOT decided: exactness of field/scalar arithmetic, RFC 9380/9496 values, the accepted set of the
@@ -251,15 +258,114 @@ def run(ctx, chk):
                        path=None if ok else p, key="R7.5 %s" % f.sname)
     chk.floor("R7.5", "inversion-guarding conditional moves in the ed25519 maps", n75, 1)
 
+    # ---- R7.7 results of the scalar APIs are reduced ----------------------------------------------------------------
+    # "equal integer arithmetic modulo the group order": whatever ends up in the output came last from a function that
+    # reduces mod L (directly into the output, or into the local buffer that is then copied out) - a raw big-integer
+    # add / sub result copied out without the final sc25519_reduce can be L itself or larger.
+    REDUCING = {"sc25519_reduce", "sc25519_mul", "sc25519_muladd", "sc25519_invert"}
+    SCALAR_APIS = ["crypto_core_ed25519_scalar_negate", "crypto_core_ed25519_scalar_complement", "crypto_core_ed25519_scalar_add",
+                   "crypto_core_ed25519_scalar_sub", "crypto_core_ed25519_scalar_mul", "crypto_core_ed25519_scalar_reduce",
+                   "crypto_core_ed25519_scalar_invert",
+                   "crypto_core_ristretto255_scalar_negate", "crypto_core_ristretto255_scalar_complement",
+                   "crypto_core_ristretto255_scalar_add", "crypto_core_ristretto255_scalar_sub", "crypto_core_ristretto255_scalar_mul",
+                   "crypto_core_ristretto255_scalar_reduce", "crypto_core_ristretto255_scalar_invert"]
+    okset = REDUCING | set(SCALAR_APIS)
+    n77 = 0
+    OUT = ("arg", 0)
+    for name in SCALAR_APIS:
+        f = need(name)
+        for p in cm.paths(prog, f):
+            if p.kind != "ret":
+                continue
+            lastw = None
+            for e in p.events:
+                if e.kind in ("store", "call") and cm.writes_through(prog, p, e, OUT):
+                    if e.kind == "call" and (e.callee_name() or "") in ("sodium_memzero",):
+                        continue
+                    lastw = e
+            if lastw is None:
+                continue
+            n77 += 1
+            ok, how = False, "last write through the output is %s" % (lastw.callee_name() if lastw.kind == "call" else "a plain store")
+            if lastw.kind == "call":
+                nm = lastw.callee_name() or ""
+                if nm in okset and lastw.args and lastw.args[0] == OUT:
+                    ok = True
+                elif nm.startswith(("llvm.memcpy", "llvm.memmove", "memcpy", "memmove")) and lastw.args[0] == OUT:
+                    src = T.root(lastw.args[1])
+                    prev = None
+                    for e in p.events[:lastw.idx]:
+                        if e.kind in ("store", "call") and cm.writes_through(prog, p, e, src):
+                            prev = e
+                    pn = prev.callee_name() if prev is not None and prev.kind == "call" else None
+                    ok = pn in okset and T.root(prev.args[0]) == src
+                    how = "copied from %s whose last writer is %s" % (T.show(src, f), pn or "a plain store")
+            chk.ob("R7.7", f, "the output is produced by a function that reduces modulo L", ok, loc=f.loc(lastw.iid), detail=how,
+                   path=None if ok else p, key="R7.7 %s" % name)
+    chk.floor("R7.7", "returning paths of the scalar arithmetic APIs", n77, 14)
+
+    # ---- R7.10 expand_message_xmd: DST_prime is the same bytes in b_0 and in every b_i ---------------------------------
+    # RFC 9380 5.3.1 appends DST_prime to the input of b_0 and of each b_i. In core_h2c_string_to_hash_* that is the group of
+    # hash updates with the same (pointer, length) pair occurring at least twice on a path (once for b_0, once per round);
+    # the object they read must not be written between the first and the last of them - otherwise later blocks are
+    # computed under a different domain-separation tag than b_0.
+    n710 = 0
+    for name in ("core_h2c_string_to_hash_sha256", "core_h2c_string_to_hash_sha512"):
+        f = need(name)
+        flagged = set()
+        for p in cm.paths(prog, f, backedge_limit=1):
+            if p.kind != "ret":
+                continue
+            groups = {}
+            for e in p.calls():
+                nm = e.callee_name() or ""
+                if nm.endswith("_update") and len(e.args) >= 3:
+                    groups.setdefault((e.args[1], e.args[2]), []).append(e)
+            for (x, ln), evs in groups.items():
+                if len(evs) < 2 or T.root(x)[0] not in ("alloca", "arg"):
+                    continue
+                r = T.root(x)
+                if ln[0] == "c" and ln[1] <= 3:
+                    continue            # the one-byte counters / length bytes
+                n710 += 1
+                bad = [w for w in p.events[evs[0].idx + 1:evs[-1].idx]
+                       if w.kind in ("store", "call") and cm.writes_through(prog, p, w, r)]
+                ok = not bad
+                if ok or (name, r) in flagged:
+                    if ok:
+                        chk.ob("R7.10", f, "the tag bytes hashed into b_0 and into the later blocks are not modified in between", True,
+                               key="R7.10 %s %s" % (name, "ctx" if r[0] == "arg" else "local-dst"))
+                    continue
+                flagged.add((name, r))
+                chk.ob("R7.10", f, "the tag bytes hashed into b_0 and into the later blocks are not modified in between", False,
+                       loc=f.loc(bad[0].iid), detail="%s (hashed as DST_prime at %s and again at %s) is overwritten at %s by %s"
+                       % (T.show(r, f), f.loc(evs[0].iid), f.loc(evs[-1].iid), f.loc(bad[0].iid),
+                          bad[0].callee_name() if bad[0].kind == "call" else "a store"),
+                       path=p, key="R7.10 %s oversize-dst-overwritten" % name)
+    chk.floor("R7.10", "(path, domain-separation tag) groups in the two expanders", n710, 4)
+
+    # ---- R7.8 (E12) carry chains of the field / scalar arithmetic are not cut ---------------------------------
+    from .. import knownbits
+    knownbits.dead_carry_rule(prog, chk, "R7.8", ("crypto_core/ed25519/", "crypto_scalarmult/curve25519/", "crypto_scalarmult/ed25519/",
+                                                  "crypto_scalarmult/ristretto255/"),
+                              allowed=[("_sodium_scalarmult_curve25519_sandy2x_fe_frombytes", "sandy2x decoder: h9 = (load_3(s+29) & 0x7fffff) << 2 has 25 bits, so the "
+                                        "unsigned `carry9 = h9 >> 25` is zero by construction (the signed ref10 form adds 2^24 first)")],
+                              floor=100)
+
+    # ---- R7.9 branch-free selects (cmov / cswap / cneg) choose between the values they mix ------------------------------
+    knownbits.select_idiom_rule(prog, chk, "R7.9", ("crypto_core/ed25519/", "crypto_scalarmult/"), floor=3)
+
     # ---- R7.6 (E11) which bits of the encoding the canonical-form predicates look at -------------------------
     # ge25519_is_canonical tests y < p: bit 255 is the sign of x and must not take part (an encoding with the sign
     # bit set and y >= p would otherwise pass), every other bit must be able to influence the verdict.
     # ristretto255_is_canonical additionally rejects bit 255; sc25519_is_canonical compares all 256 bits with L.
     from .. import bitflow, e9
-    rows6 = [("ge25519_is_canonical", {(31, 7)}), ("ristretto255_is_canonical", set()), ("sc25519_is_canonical", set())]
+    rows6 = [("ge25519_is_canonical", 0, {(31, 7)}), ("ristretto255_is_canonical", 0, set()), ("sc25519_is_canonical", 0, set()),
+             # the decoders: the sign bit selects x, every other bit is part of y (resp. of s)
+             ("ge25519_frombytes", 1, set()), ("ge25519_frombytes_negate_vartime", 1, set()), ("ristretto255_frombytes", 1, set())]
     o2 = {}
     n76 = 0
-    for name, ignored in rows6:
+    for name, pidx6, ignored in rows6:
         f = need(name)
         if f.unit not in o2:
             o2[f.unit] = bitflow.BitFlow(e9.O2Unit(ctx, f.unit))
@@ -269,7 +375,7 @@ def run(ctx, chk):
         leak, blind = [], []
         for byte in range(32):
             for bit in range(8):
-                r = bf.analyse(f.name, 0, byte, bit)
+                r = bf.analyse(f.name, pidx6, byte, bit)
                 seen = bool(r["ret"] or r["branches"] or r["calls"] or r["stores"])
                 n76 += 1
                 if (byte, bit) in ignored and seen:
@@ -280,7 +386,7 @@ def run(ctx, chk):
                detail="(byte, bit) %s reach the result" % leak if leak else "", key="R7.6 %s sign-bit" % name)
         chk.ob("R7.6", f, "every other bit of the 32-byte encoding can influence the verdict", not blind,
                detail="(byte, bit) %s never reach the result" % blind[:12] if blind else "", key="R7.6 %s coverage" % name)
-    chk.floor("R7.6", "(predicate, byte, bit) flows analysed", n76, 768)
+    chk.floor("R7.6", "(predicate / decoder, byte, bit) flows analysed", n76, 1536)
 
     # public generators write their output only through cofactor-clearing maps or validated addition
     okw = {f.key for f in clearing} | {need("crypto_core_ed25519_add").key}
